@@ -705,6 +705,11 @@ func Run(seed int64, n int, outDir string) error {
 	if err := r.scenarioSharedBound(ctx, sharedOrders); err != nil {
 		return err
 	}
+	for _, down := range []bool{true, false} {
+		if err := r.scenarioCrossedTick(ctx, down, 2); err != nil {
+			return err
+		}
+	}
 	spellOrders := 2
 	if thorough {
 		spellOrders = 6
